@@ -24,11 +24,13 @@ def run(fw):
         m = fw.build_model(name, H, [root], defines=defs)
         us = fw.unwindset(m, root, vfw.std_rules(string=20, extra=[(r'6appendEPKc', 130)]))
         lab = '%s[%s]' % (root, what)
-        fw.differential(m, root, H, seeds=25, defines=defs)   # cheap, and shows real-library failures even if the solver gives up
+        fw.differential(m, root, H, seeds=25, defines=defs, vectors=([[a, b, c] for a in (0, 1) for b in (0, 1) for c in (0, 1)] if root == 'h_link_units_tree' else ()))   # cheap, and shows real-library failures even if the solver gives up
+        if root == 'h_link_units_tree' and fw.tier == 'quick':
+            return   # differential only: the solver has no verdict on the three-component tree within 900 s (attempted in the thorough tier)
         r = fw.cbmc(m, root, unwind=6, unwindset=us, timeout=900, label=lab, symbolic='interface attributes / unit names / emptiness flags')
         if r['status'] != 'SUCCESS':
             fw.log(lab, r['status'], r['wall'], [(f['msg'], f['inputs']) for f in r['failed']][:4])
-        fw.handle(r, H, defs, best_effort=(extra in (['HOW=1'], ['HOW=5'])))
+        fw.handle(r, H, defs, best_effort=(extra in (['HOW=1'], ['HOW=5']) or root == 'h_link_units_tree'))
         if (root, ''.join(extra)) in wit:
             mw = fw.build_model(name + 'w', H, [root], defines=defs + ['WITNESS'])
             fw.witness(mw, root, unwind=6, unwindset=us, timeout=1200, label='witness:' + lab)
